@@ -194,6 +194,13 @@ def _sat_conj(lits):
                         extra.append(('lt', _CONST0, terms[lk]))
                     else:
                         extra.append(('eq', terms[lk], _CONST0))
+    # axiom: min(a, b, ..) <= each argument, max(a, b, ..) >= each argument
+    for k in list(order):
+        t = terms[k]
+        sh = getattr(t, 'shape', None)
+        if sh and t.sub and (sh.startswith('min(') or sh.startswith('max(')) and '=' not in sh:
+            for st in t.sub:
+                extra.append(('le', t, st) if sh.startswith('min(') else ('le', st, t))
     for l in extra:
         for t in lit_terms(l):
             node(t)
